@@ -598,7 +598,10 @@ def text_fd_to_metric_families(fd):
             else:
                 is_nh = False
                 sample = _parse_sample(line)
-            if sample.name not in allowed_names and not is_nh:
+            if sample.name not in allowed_names and not (is_nh and sample.name == name):
+                if is_nh:
+                    # A native histogram sample belongs to the histogram family of its own name only.
+                    raise ValueError("Native histogram sample outside its family: " + line)
                 if name is not None:
                     yield build_metric(name, documentation, typ, unit, samples)
                 # Start an unknown metric.  sample.name is already unquoted and unescaped (a bare name was
